@@ -152,6 +152,47 @@ def run(ctx, ck):
                   'handler prints %d diagnostic(s) and %s' % (np_, 'returns to main' if isinstance(last, ast.Return)
                                                                   else 'does NOT return'))
     ck.floor('exception handlers in main', n_h, 20)
+    # sorting records: `sorted(X)` / `X.sort()` without a key compares whole entries; when two entries tie
+    # on their first field the next fields are compared - bound methods, arrays, None - and TypeError /
+    # ValueError escapes main.  Every sort of a sequence of records (tuples of several fields, objects) in
+    # main or the helpers it parses the options with must name its key, or be inside a handler for it.
+    ck.rule('R-EXC.sort-key', 'records are sorted by an explicit key (ties never compare unorderable fields)')
+    n_sorts = 0
+    for g_ in [mainf] + [m.funcs[q_] for q_ in sorted(ea.entry_helpers())]:
+        for c_ in walk_no_nested(g_.node):
+            if not isinstance(c_, ast.Call):
+                continue
+            seq = None
+            if isinstance(c_.func, ast.Name) and c_.func.id == 'sorted' and c_.args:
+                seq = c_.args[0]
+            elif isinstance(c_.func, ast.Attribute) and c_.func.attr == 'sort' and not c_.args:
+                seq = c_.func.value
+            if seq is None:
+                continue
+            n_sorts += 1
+            has_key = any(k_.arg == 'key' for k_ in c_.keywords)
+            # what the entries are: tuples / objects put into the sequence in this function
+            names_ = {n_.id for n_ in ast.walk(seq) if isinstance(n_, ast.Name)}
+            records = []
+            for s_ in walk_no_nested(g_.node):
+                e_ = None
+                if isinstance(s_, ast.Call) and isinstance(s_.func, ast.Attribute) and s_.func.attr in ('append', 'add', 'insert') and \
+                   isinstance(s_.func.value, ast.Name) and s_.func.value.id in names_ and s_.args:
+                    e_ = s_.args[-1]
+                elif isinstance(s_, ast.Assign) and any(isinstance(t_, ast.Name) and t_.id in names_ for t_ in s_.targets) and \
+                        isinstance(s_.value, (ast.List, ast.Tuple, ast.ListComp, ast.GeneratorExp)):
+                    e_ = s_.value.elt if isinstance(s_.value, (ast.ListComp, ast.GeneratorExp)) else (
+                        s_.value.elts[0] if s_.value.elts else None)
+                if e_ is not None and ((isinstance(e_, ast.Tuple) and len(e_.elts) >= 2) or
+                                       (isinstance(e_, ast.Call) and isinstance(e_.func, ast.Name) and e_.func.id[:1].isupper())):
+                    records.append(e_)
+            caught = ea.caught_locally(g_, c_, 'TypeError') is not None
+            ok_ = has_key or caught or not records
+            ck.ob('R-EXC.sort-key', '%s|%s' % (g_.qual, norm(c_)[:60]), ok_, g_.loc(c_),
+                  'sorted by an explicit key' if has_key else ('inside a handler' if caught else 'entries are plain values')
+                  if ok_ else 'entries like %s are sorted without a key: entries that tie on the first field compare their '
+                  'remaining fields (methods, arrays, None) and TypeError / ValueError escapes main' % norm(records[0])[:60])
+    ck.floor('sort calls in main and its option helpers', n_sorts, 1)
     rets = [r for r in walk_no_nested(mainf.node) if isinstance(r, ast.Return)]
     mfl_ = ctx.flow(mainf)
 
